@@ -95,6 +95,14 @@ CHECKS = {
               "every N up to |U|+1 (in particular N inside a group of equally probable words). Exploration; every N of each "
               "generated ruleset is enumerated."),
         design='4/C17'),
+    'C20': dict(
+        technique="Hypothesis property-based testing: real edit_rules.edit_rules() on generated rulesets x generated option sets, independent filter oracle (own tokenizer and label arithmetic), SHA-256 tree comparison, guess lengths from the real guesser on the edited ruleset",
+        text=("Generated rulesets and option combinations (length bounds, terminal sets, regexes, --copy): the edited base list must be "
+              "a sub-sequence of the original lines with identical text, every structure the independent oracle says passes must "
+              "stay and every one that fails must go, no other file (and with --copy nothing in the source) may change, and every "
+              "non-Markov guess of the edited ruleset must respect the bounds. One open finding (F20: context label X<n> counted as n "
+              "characters) is reported as KNOWN-FINDING and excluded from the alarm by its signature only. Exploration."),
+        design='4/C20'),
 }
 
 NOT_YET = "check not built yet in this round (design exists in DESIGN.md section 4); not claimed until it runs"
